@@ -5,6 +5,7 @@
   arbitrary `Judges`.
 -/
 import VM.Proofs.LocationsProof
+import VM.Proofs.CollisionProof
 namespace VM.C09
 open VM Sw
 
@@ -38,6 +39,20 @@ theorem C09_heuristic_partial_reports (J : Judges) (O : Oracles) (w : Which) (in
     ∃ r, (walk { exactVisited := false, suffixHeuristic := true } J w O inn s path vis).1 = some r
       ∧ ∀ m, (m ∈ reportedOf w r ↔ Exp J O w inn s path m) := by
   rw [C09_heuristic_partial J O w inn s path h]
+  exact walk_mem J O w inn s path vis
+
+/-- **The code as it is.** With both halves of the visited test in place (exact membership in the visited set and the suffix
+    heuristic), the traversal is the repaired one — and hence reports exactly what the specification asks — on every schema,
+    path and visited set where the bookkeeping is unambiguous (`Unambiguous`, decidable): no walked path triggers the
+    heuristic, no two walked locations render to the same dotted path, none was visited before. What lies outside is the
+    listed finding, with a witness for each half (`C09_witness_suffix`, `C09_witness_exact_collision`). -/
+theorem C09_asIs (J : Judges) (O : Oracles) (w : Which) (inn : String) (s : Schema) (path : String) (vis : List String)
+    (h : Unambiguous w s path vis) :
+    walk DCfg.asIs J w O inn s path vis = walk DCfg.repaired J w O inn s path vis
+    ∧ ∃ r, (walk DCfg.asIs J w O inn s path vis).1 = some r ∧ ∀ m, (m ∈ reportedOf w r ↔ Exp J O w inn s path m) := by
+  have e := walk_unambiguous J O w inn DCfg.asIs s path vis h
+  refine ⟨e, ?_⟩
+  rw [e]
   exact walk_mem J O w inn s path vis
 
 /-- defaults are errors, examples are warnings: a rejected example never lands in the walker's errors -/
@@ -133,6 +148,11 @@ theorem C09_witness_exact_collision :
         = ["definitions.D.additionalProperties.default"] := by decide
 
 /-! ### non-vacuity -/
+example : Unambiguous .dflt defA "definitions.Pet" [] := by
+  refine ⟨by decide, by decide, by decide⟩
+/-- the two witnesses are outside: one path overlaps its own suffix, two locations collide -/
+example : ¬ Unambiguous .dflt defA "definitions.a" [] := fun h => absurd h.1 (by decide)
+example : ¬ Unambiguous .dflt defColl "definitions.D" [] := fun h => absurd h.2.1 (by decide)
 example : noOverlap .dflt defA "definitions.Pet" = true := by decide
 example : noOverlap .dflt defA "definitions.a" = false := by decide
 
